@@ -201,6 +201,12 @@ func (a *vzAdv) propose() {
 	w.fx.RecalculateHash(&ph.Header)
 	w.fx.SignProposal(context.Background(), &ph, prop)
 	a.phs = append(a.phs, ph)
+	w.orc.mu.Lock()
+	if w.orc.honestPH == nil {
+		w.orc.honestPH = map[string]bool{}
+	}
+	w.orc.honestPH[string(ph.Header.Hash)] = true
+	w.orc.mu.Unlock()
 	a.remember(a.h, a.r, 0, string(ph.Header.Hash), tmcodec.ConsensusMessage{ProposedHeader: &ph})
 	a.send(tmcodec.ConsensusMessage{ProposedHeader: &ph}, "ph", "valid", fmt.Sprintf("honest proposal %d/%d by %d hash %x", a.h, a.r, prop, trunc(string(ph.Header.Hash))))
 	for _, wh := range a.withheld {
@@ -1045,6 +1051,11 @@ func (a *vzAdv) injectReplay() {
 		}
 		select {
 		case r := <-resp:
+			if ctx.Err() != nil {
+				// answered by a dying process: the same as no answer
+				w.orc.onReplayUnanswered(a.nd, hdr)
+				return
+			}
 			w.s.Logf("adv replay %d (%s) => err=%v", id, expect, r.Err)
 			w.orc.onReplayResult(a.nd, hdr, proof, expect, r.Err)
 		case <-ctx.Done():
